@@ -49,7 +49,16 @@ def _classes():
     def random_dna(self, random_generator=None, previous_dna=None):
       return pg.DNA(STRS[(random_generator or __import__('random')).randrange(len(STRS))])
 
-  _CLASSES.update(A1=VerifA1, A2=VerifA2, A3=VerifA3, Custom=VerifCustom)
+  class VerifS1(VerifA1):     # subclasses with the same fields: different class, equal contents
+    pass
+
+  class VerifS2(VerifA2):
+    pass
+
+  class VerifS3(VerifA3):
+    pass
+
+  _CLASSES.update(A1=VerifA1, A2=VerifA2, A3=VerifA3, S1=VerifS1, S2=VerifS2, S3=VerifS3, Custom=VerifCustom)
   return _CLASSES
 
 
@@ -86,26 +95,60 @@ def typed_class(fs_list: List[dict]):
   return _TYPED[key]
 
 
-def build(t: dict):
+FIELDS = ['x', 'y', 'z']
+
+
+def _ref_keys(root: dict, path: List[int]) -> list:
+  """KeyPath keys of the item at `path` (1-based positions) of the template `root`."""
+  keys, node = [], root
+  for pos in path:
+    h = node['h']
+    keys.append({'dict': KEYS[pos - 1] if pos <= len(KEYS) else f'k{pos}', 'list': pos - 1,
+                 'obj': FIELDS[pos - 1] if pos <= 3 else f'f{pos}', 'tobj': f'f{pos}'}.get(h, pos - 1))
+    node = node['items'][pos - 1] if 'items' in node and pos <= len(node['items']) else {'h': 'leaf'}
+  return keys
+
+
+def _ref_path(keys) -> List[int]:
+  out = []
+  for k in keys:
+    if isinstance(k, int):
+      out.append(k + 1)
+    elif k in KEYS:
+      out.append(KEYS.index(k) + 1)
+    elif k in FIELDS:
+      out.append(FIELDS.index(k) + 1)
+    elif isinstance(k, str) and k[:1] == 'f' and k[1:].isdigit():
+      out.append(int(k[1:]))
+    else:
+      out.append(0)
+  return out
+
+
+def build(t: dict, root: dict = None):
   import pyglove as pg  # pylint: disable=import-outside-toplevel
+  root = root or t
   h = t['h']
+  if h == 'ref':
+    from pyglove.core.hyper.derived import ValueReference  # pylint: disable=import-outside-toplevel
+    return ValueReference([pg.KeyPath(_ref_keys(root, t['path']))])
   if h == 'leaf':
     return int(t['v'])
   if h == 'fleaf':
     return t['v'] / 10.0
   if h == 'dict':
-    return pg.Dict({KEYS[i]: build(x) for i, x in enumerate(t['items'])})
+    return pg.Dict({KEYS[i]: build(x, root) for i, x in enumerate(t['items'])})
   if h == 'list':
-    return pg.List([build(x) for x in t['items']])
+    return pg.List([build(x, root) for x in t['items']])
   if h == 'obj':
-    cls = _classes()[f'A{len(t["items"])}']
-    return cls(*[build(x) for x in t['items']])
+    cls = _classes()[f'{"S" if t.get("c") else "A"}{len(t["items"])}']
+    return cls(*[build(x, root) for x in t['items']])
   if h == 'tobj':
-    return typed_class(t['fs'])(*[build(x) for x in t['items']])
+    return typed_class(t['fs'])(*[build(x, root) for x in t['items']])
   if h == 'oneof':
-    return pg.oneof([build(c) for c in t['cands']])
+    return pg.oneof([build(c, root) for c in t['cands']])
   if h == 'manyof':
-    return pg.manyof(t['k'], [build(c) for c in t['cands']], distinct=t['distinct'], sorted=t['sorted'])
+    return pg.manyof(t['k'], [build(c, root) for c in t['cands']], distinct=t['distinct'], sorted=t['sorted'])
   if h == 'float':
     return pg.floatv(t['lo'] / 10.0, t['hi'] / 10.0)
   if h == 'custom':
@@ -157,7 +200,13 @@ def project_value(v) -> dict:
     return {'h': 'tobj', 'fs': type(v)._verif_fs,  # pylint: disable=protected-access
             'items': [project_value(v.sym_getattr(k)) for k in list(v.sym_keys())]}
   if isinstance(v, (c['A1'], c['A2'], c['A3'])):
-    return {'h': 'obj', 'items': [project_value(v.sym_getattr(k)) for k in list(v.sym_keys())]}
+    exact = type(v) in (c['A1'], c['A2'], c['A3'])
+    return {'h': 'obj', 'c': 0 if exact else 1, 'items': [project_value(v.sym_getattr(k)) for k in list(v.sym_keys())]}
+  if isinstance(v, pg.hyper.DerivedValue):
+    try:
+      return {'h': 'ref', 'path': _ref_path(v.reference_paths[0].keys)}
+    except Exception:  # pylint: disable=broad-except
+      return {'h': 'ref', 'path': [0]}
   return {'h': 'leaf', 'v': -9}
 
 
@@ -172,8 +221,10 @@ def value_str(v: dict) -> str:
       b = lambda x: '' if x == NONE else str(x / 10.0 if f['k'] == 'float' else x)
       return f"{f['k']}[{b(f['lo'])},{b(f['hi'])}]"
     return 'T(' + ', '.join(f'{fs_str(f)}={value_str(x)}' for f, x in zip(v['fs'], v['items'])) + ')'
+  if h == 'ref':
+    return 'ref(' + '.'.join(str(x) for x in v['path']) + ')'
   if h in ('dict', 'list', 'obj'):
-    o, c = {'dict': '{}', 'list': '[]', 'obj': ('A(', ')')}[h]
+    o, c = {'dict': '{}', 'list': '[]', 'obj': ('Sub(' if v.get('c') else 'A(', ')')}[h]
     return o + ', '.join(value_str(x) for x in v['items']) + c
   if h == 'oneof':
     return 'oneof(' + ', '.join(value_str(x) for x in v['cands']) + ')'
@@ -266,7 +317,7 @@ def observe_c13(entry: dict, seed: int, opts: dict) -> dict:
       errs.append(f'dna {geno.tree_str(tree)}:' + type(e).__name__ + ':' + str(e)[:120])
       continue
     o['dnas'].append(rec)
-  if entry['size'] != -1 and entry['size'] <= opts['iter_max']:
+  if entry['size'] != -1 and entry['size'] <= opts['iter_max'] and not t.is_constant:
     o['hasiter'] = True
     try:
       cap = 3 * entry['size'] + 5
